@@ -141,6 +141,8 @@ func runC11(c *Ctx) {
 	ruleP5(c)
 	ruleL1(c, "P7", 20)
 	ruleP4c(c)
+	ruleP8(c, "P8", 80)
+	ruleB1(c, "P9", 2)
 	// ---- P6 ---------------------------------------------------------------------
 	for _, fn := range c.moduleFuncs() {
 		for _, s := range recoverLostSites(c, fn) {
@@ -934,7 +936,6 @@ func constantString(c *ssa.Const) string {
 	}
 	return constant.StringVal(c.Value)
 }
-
 
 // ruleP4c: the CSVRECT invariant of the residual table holds only while the
 // csv readers keep encoding/csv's default FieldsPerRecord (0: every record
